@@ -493,6 +493,8 @@ def t_all(I, x):
 def t_any(I, x):
     if isinstance(x, T.LamTensor) and T.is_conc_shape(x.shape):
         return ops.b_or(*[I.truth(v) for v in _flatten(T.materialize(x))])
+    if isinstance(x, T.LamTensor) and x.ndim == 1:
+        return I.reg.tensor_any(I, x)
     raise Unsupported("torch.any over a symbolic shape")
 
 
